@@ -104,3 +104,94 @@ def find_maxlen(assoc_pdu):
                 if getattr(sub, 'item_type', None) == 0x51:
                     return sub.maximum_length_received
     return None
+
+
+# ------------------------------------------------------------------------------------------------
+# associations built through their real constructors, with the provider module replaced
+# ------------------------------------------------------------------------------------------------
+
+class NoSleep(object):
+    """`time` as seen by asceprovider (Association.kill polls with sleep)"""
+    @staticmethod
+    def sleep(dt):
+        pass
+
+    @staticmethod
+    def time():
+        return 0
+
+
+class DulModule(object):
+    """stands for the dulprovider module inside asceprovider: DULServiceProvider(...) hands out scripted providers"""
+    scripts = []
+    created = []
+
+    @classmethod
+    def DULServiceProvider(cls, store_in_file, get_file_cb, dul_socket=None, max_pdu_length=65536):
+        script = cls.scripts.pop(0) if cls.scripts else ()
+        d = ScriptDul(script)
+        d.ctor_args = (store_in_file, get_file_cb, dul_socket, max_pdu_length)
+        cls.created.append(d)
+        return d
+
+
+def patch_provider(*scripts):
+    """The next len(scripts) associations created get these receive-scripts, in order."""
+    DulModule.scripts = [list(s) for s in scripts]
+    DulModule.created = []
+    asceprovider.dulprovider = DulModule
+    asceprovider.time = NoSleep
+
+
+class FakeFile(object):
+    closed = False
+
+    def close(self):
+        self.closed = True
+
+    def flush(self):
+        pass
+
+
+class FakeRequest(object):
+    """the accepted client socket as far as socketserver.StreamRequestHandler touches it"""
+
+    def makefile(self, *a, **k):
+        return FakeFile()
+
+    def settimeout(self, t):
+        pass
+
+    def setsockopt(self, *a):
+        pass
+
+    def sendall(self, data):
+        pass
+
+    def close(self):
+        pass
+
+    def fileno(self):
+        return 7
+
+
+def run_acceptor(ae, max_pdu_length, script):
+    """Construct a real AssociationAcceptor (its constructor runs setup/handle/finish, i.e. the whole association).
+
+    Returns (acceptor or None if the hook never saw it, provider stand-in, exception that left handle() or None)."""
+    patch_provider(script)
+    seen = []
+    orig = ae.on_association_request
+
+    def hook(asce, assoc):
+        seen.append(asce)
+        return orig(asce, assoc)
+    ae.on_association_request = hook
+    err = None
+    try:
+        asceprovider.AssociationAcceptor(FakeRequest(), ('peer', 4242), ae, max_pdu_length)
+    except exceptions.NetDICOMError as e:
+        err = e
+    finally:
+        ae.on_association_request = orig
+    return (seen[0] if seen else None), DulModule.created[0], err
